@@ -410,12 +410,17 @@ impl Deb822 {
                     current.push(c);
                 }
                 EMPTY_LINE => {
-                    current.extend(
-                        c.as_node()
-                            .unwrap()
-                            .children_with_tokens()
-                            .skip_while(|c| matches!(c.kind(), EMPTY_LINE | NEWLINE | WHITESPACE)),
-                    );
+                    // Keep a comment line as it is (in its EMPTY_LINE node, as the parser
+                    // builds it, so that reformatting the result finds it again); drop a
+                    // blank line
+                    if c
+                        .as_node()
+                        .unwrap()
+                        .children_with_tokens()
+                        .any(|c| !matches!(c.kind(), EMPTY_LINE | NEWLINE | WHITESPACE))
+                    {
+                        current.push(c);
+                    }
                 }
                 _ => {}
             }
@@ -435,7 +440,7 @@ impl Deb822 {
                 builder.finish_node();
             }
             for c in paragraph.0.into_iter() {
-                builder.token(c.kind().into(), c.as_token().unwrap().text());
+                inject_element(&mut builder, c);
             }
             let new_paragraph = if let Some(ref ws) = wrap_and_sort_paragraph {
                 ws(&paragraph.1)
@@ -446,7 +451,7 @@ impl Deb822 {
         }
 
         for c in current {
-            builder.token(c.kind().into(), c.as_token().unwrap().text());
+            inject_element(&mut builder, c);
         }
 
         builder.finish_node();
@@ -642,6 +647,13 @@ fn inject(builder: &mut GreenNodeBuilder, node: SyntaxNode) {
         }
     }
     builder.finish_node();
+}
+
+fn inject_element(builder: &mut GreenNodeBuilder, element: SyntaxElement) {
+    match element {
+        rowan::NodeOrToken::Node(node) => inject(builder, node),
+        rowan::NodeOrToken::Token(token) => builder.token(token.kind().into(), token.text()),
+    }
 }
 
 impl FromIterator<Paragraph> for Deb822 {
